@@ -167,7 +167,7 @@ def run(ctx):
                        'status %s::%s is handled as `%s` (protocol allows %s)%s' % (adt.rsplit('::', 2)[0], v, cls, sorted(want) if want else 'unknown status', extra))
         missing = set(table) - set(si['variants'])
         ctx.ob('CODEC', '%s/all-statuses' % feat, not missing, short_loc(si.get('span')), 'statuses without an explicit arm: %s' % sorted(missing), nontrivial=False)
-    ctx.floor('CODEC', 'status arms examined', nstat, 3 if not ctx.has_feature('bzip2') else 13)
+    ctx.floor('CODEC', 'status arms examined', nstat, sum(len(PROTOCOL[a]) for a in PROTOCOL if ctx.has_feature(FEATURE_OF[a])))
 
     oneshot(ctx, enc)
     sliceout(ctx)
